@@ -79,4 +79,27 @@ def context (arbs : List Arb) (c : Conf) : Option ContextErr :=
 /-- a confirmation is accepted when both checks pass (block pool: sanity; chain: context). -/
 def accepted (arbs : List Arb) (c : Conf) : Bool := sanity c == none && context arbs c == none
 
+/-! ### the block pool (mempool/blockpool.go:appendConfirm)
+
+`BlockPool.appendConfirm` is the only place where signatures, accept flags and the vote/proposal
+hash binding are checked; the chain later re-checks only the context of the confirmation the
+pool hands it.  For one block hash the pool keeps at most one confirmation: the last appended one
+that passed `ConfirmSanityCheck`. -/
+
+/-- one `AppendConfirm` (no block for that hash in the pool yet): index of the cached confirmation. -/
+def poolStep (cached : Option Nat) (i : Nat) (c : Conf) : Option Nat :=
+  if sanity c = none then some i else cached
+
+/-- cached index after every step, starting at index `i`. -/
+def poolRun : Option Nat → Nat → List Conf → List (Option SanityErr × Option Nat)
+  | _, _, [] => []
+  | cached, i, c :: cs =>
+    let cached' := poolStep cached i c
+    (sanity c, cached') :: poolRun cached' (i + 1) cs
+
+/-- index of the confirmation the pool holds after appending `cs` in order. -/
+def poolFinal : Option Nat → Nat → List Conf → Option Nat
+  | cached, _, [] => cached
+  | cached, i, c :: cs => poolFinal (poolStep cached i c) (i + 1) cs
+
 end ElaVerif.Confirm
